@@ -19,7 +19,6 @@
 package commonmark
 
 import (
-	"bytes"
 	"fmt"
 	"html"
 	"io"
@@ -405,81 +404,40 @@ func (r *renderState) postInline(source []byte, inline *Inline) bool {
 //
 // It cannot use a conventional HTML parser,
 // since raw HTML in Markdown may be incomplete or start in the middle of a tag.
+// Instead, every "<" is considered regardless of context
+// (comments, CDATA sections, declarations, processing instructions, and attribute values
+// are tokenized differently by browsers than by CommonMark),
+// and the name that an HTML tokenizer would give a tag starting there
+// is passed to the filter.
 func (r *renderState) filterRaw(rawHTML []byte) {
-	const (
-		copyState = iota
-		commentState
-		piState
-		declState
-		cdataState
-	)
-	state := copyState
 	copyStart := 0
-	for i := 0; i < len(rawHTML); {
-		switch state {
-		case copyState:
-			if rawHTML[i] == '<' {
-				switch {
-				case hasBytePrefix(rawHTML[i:], cdataPrefix):
-					state = cdataState
-					i += len(cdataPrefix)
-				case hasBytePrefix(rawHTML[i:], htmlCommentPrefix):
-					state = commentState
-					i += len(htmlCommentPrefix)
-				case hasHTMLDeclarationPrefix(rawHTML[i:]):
-					state = declState
-					i += len("<!x")
-				default:
-					tagNameStart := i + 1
-					tagEnd := len(rawHTML)
-					if j := bytes.IndexByte(rawHTML[tagNameStart:], '>'); j >= 0 {
-						tagEnd = tagNameStart + j + len(">")
-					}
-					tagNameEnd := tagNameStart + htmlTagNameEnd(rawHTML[tagNameStart:tagEnd])
-					tagName := maybeLower(rawHTML[tagNameStart:tagNameEnd], &r.lowerBuf)
-					if r.FilterTag(tagName) {
-						r.dst = append(r.dst, rawHTML[copyStart:i]...)
-						r.dst = append(r.dst, "&lt;"...)
-						r.dst = append(r.dst, rawHTML[tagNameStart:tagEnd]...)
-						copyStart = tagEnd
-					}
-					i = tagEnd
-				}
-			} else {
-				i++
+	for i := 0; i < len(rawHTML); i++ {
+		if rawHTML[i] != '<' {
+			continue
+		}
+		tagNameStart := i + 1
+		tagNameEnd := tagNameStart
+		if tagNameStart < len(rawHTML) && isASCIILetter(rawHTML[tagNameStart]) {
+			for tagNameEnd < len(rawHTML) && !isHTMLTagNameTerminator(rawHTML[tagNameEnd]) {
+				tagNameEnd++
 			}
-		case commentState:
-			if hasBytePrefix(rawHTML[i:], htmlCommentSuffix) {
-				state = copyState
-				i += len(htmlCommentSuffix)
-			} else {
-				i++
-			}
-		case piState:
-			if hasBytePrefix(rawHTML[i:], processingInstructionSuffix) {
-				state = copyState
-				i += len(processingInstructionSuffix)
-			} else {
-				i++
-			}
-		case declState:
-			if rawHTML[i] == '>' {
-				state = copyState
-			}
-			i++
-		case cdataState:
-			if hasBytePrefix(rawHTML[i:], cdataSuffix) {
-				state = copyState
-				i += len(cdataSuffix)
-			} else {
-				i++
-			}
-		default:
-			panic("unreachable")
+		}
+		tagName := maybeLower(rawHTML[tagNameStart:tagNameEnd], &r.lowerBuf)
+		if r.FilterTag(tagName) {
+			r.dst = append(r.dst, rawHTML[copyStart:i]...)
+			r.dst = append(r.dst, "&lt;"...)
+			copyStart = i + 1
 		}
 	}
-
 	r.dst = append(r.dst, rawHTML[copyStart:]...)
+}
+
+// isHTMLTagNameTerminator reports whether c ends a tag name
+// in the HTML tokenizer's [tag name state].
+//
+// [tag name state]: https://html.spec.whatwg.org/multipage/parsing.html#tag-name-state
+func isHTMLTagNameTerminator(c byte) bool {
+	return c == '\t' || c == '\n' || c == '\f' || c == ' ' || c == '/' || c == '>'
 }
 
 func appendAltText(dst []byte, source []byte, parent *Inline) []byte {
